@@ -25,6 +25,7 @@ EXPLANATION = (
     "bytes, sets _partial_missing to expected - length (linear normal form) and re-arms the timer with self.timeout, while each "
     "validator raises it as (len(data), announced total) only when len(data) is below the announced total and the header up to the "
     "length byte is present. Split points x delays x contents end-to-end are not decided."
+    ' (R4, shared with C02.R6) every path of the receive callbacks reaches the reassembly test and the validator.'
 )
 
 
